@@ -21,6 +21,8 @@ pub struct Args {
     pub scale: f64,
     pub verbose: bool,
     pub extra: Vec<String>,
+    /// violation kinds listed as known findings for this property (do not trigger the early stop)
+    pub known: Vec<String>,
 }
 
 impl Args {
@@ -37,6 +39,7 @@ impl Args {
             scale: 1.0,
             verbose: false,
             extra: vec![],
+            known: vec![],
         };
         let mut i = 2;
         while i < argv.len() {
@@ -68,6 +71,10 @@ impl Args {
                 }
                 "--scale" => {
                     a.scale = v(i).parse().unwrap_or(1.0);
+                    i += 1;
+                }
+                "--known" => {
+                    a.known = v(i).split(',').filter(|x| !x.is_empty()).map(|x| x.to_string()).collect();
                     i += 1;
                 }
                 "--thorough" => a.thorough = true,
@@ -118,6 +125,7 @@ pub struct Report {
     pub max_samples: usize,
     pub violations: Vec<J>,
     pub violation_count: u64,
+    pub unknown_count: u64,
     pub known_kinds: BTreeMap<String, u64>,
     pub inconclusive: u64,
     pub metrics: BTreeMap<String, i64>,
@@ -139,6 +147,7 @@ impl Report {
             max_samples: 3,
             violations: Vec::new(),
             violation_count: 0,
+            unknown_count: 0,
             known_kinds: BTreeMap::new(),
             inconclusive: 0,
             metrics: BTreeMap::new(),
@@ -177,8 +186,13 @@ impl Report {
 
     pub fn violation(&mut self, kind: &str, msg: &str, case: u64, detail: J) {
         self.violation_count += 1;
+        if !self.args.known.iter().any(|k| k == kind) {
+            self.unknown_count += 1;
+        }
         *self.known_kinds.entry(kind.to_string()).or_insert(0) += 1;
-        if self.violations.len() < 12 {
+        let known = self.args.known.iter().any(|k| k == kind);
+        let known_kept = self.violations.iter().filter(|v| matches!(v, J::Obj(o) if o.iter().any(|(k, x)| k == "kind" && matches!(x, J::Str(s) if self.args.known.iter().any(|kk| kk == s))))).count();
+        if self.violations.len() < 14 && (!known || known_kept < 2) {
             self.violations.push(
                 J::obj()
                     .set("kind", kind)
@@ -194,6 +208,10 @@ impl Report {
     }
 
     pub fn time_up(&mut self) -> bool {
+        // a handful of witnesses is enough: do not keep a broken tree busy
+        if self.unknown_count >= 6 && self.args.case.is_none() {
+            return true;
+        }
         if self.args.max_ms > 0 && self.start.elapsed().as_millis() as u64 > self.args.max_ms {
             self.stopped_by_time = true;
             true
